@@ -43,8 +43,8 @@ META = dict(
           "override:StandardHamiltonian", "override:_LikelihoodChain",
           "override:VariableCovarianceGaussianEnergy", "override:Operator(generic)",
           "ConstCollector.add", "ConstCollector.mult", "sum_same_target_key"],
-    quick=dict(cases=170, workers=6, budget_s=75),
-    thorough=dict(cases=4500, workers=16, budget_s=780),
+    quick=dict(cases=240, workers=6, budget_s=75),
+    thorough=dict(cases=12000, workers=16, budget_s=780),
     design_ref="DESIGN.md §5 C04",
     level_text=("random programs x all constant-key subsets, compared entry-wise against jax "
                 "autodiff of an independent mirror; exploration of a bounded grammar"),
@@ -127,7 +127,7 @@ def gen_case(ck, rng, mr):
     cplx = bool(rng.integers(0, 6) == 0)
     cfg = dict(md=True, nkeys=(2, 4), cplx=cplx, steps=(3, ck.pick(9, 13)),
                maxdepth=ck.pick(6, 9), energy=0.5, leafops=True, p_subst=0.1,
-               jax=bool(rng.integers(0, 4) == 0), p_share=0.4, mdweight=3)
+               jax=bool(rng.integers(0, 4) == 0), p_share=0.4, mdweight=3, linstart=0.5)
     want = 3 if rng.integers(0, 2) else 2      # half of the cases insist on >= 3 used keys
     best = None
     for _ in range(8):
